@@ -73,7 +73,7 @@ impl Callbacks for Facts {
     }
 }
 
-fn main() {
+fn main() -> std::process::ExitCode {
     let mut args: Vec<String> = std::env::args().collect();
     // RUSTC_WORKSPACE_WRAPPER convention: argv[1] is the path of the real rustc.
     if args.len() > 1 && (args[1].ends_with("rustc") || args[1].contains("/rustc")) {
@@ -105,5 +105,5 @@ fn main() {
         file_stem: format!("{}{}", crate_name, extra),
         ast: None,
     };
-    rustc_driver::catch_with_exit_code(|| rustc_driver::run_compiler(&args, &mut facts));
+    rustc_driver::catch_with_exit_code(|| rustc_driver::run_compiler(&args, &mut facts))
 }
